@@ -180,3 +180,21 @@ func assignOpts(sc *Scenario) {
 		}
 	}
 }
+
+// assignOrder decides (from a stream of its own) whether the simulated run comes BEFORE the
+// solo passes. Normally the first solo pass runs first — its step counts place PolSingle's
+// preemption and PCT's change points — which also means that every input of the scenario has
+// been seen once, sequentially, before the tasks meet it. State the library keeps PER INPUT is
+// then always warm. One scenario in three (of those whose policy does not need the solo step
+// counts) therefore runs the simulation first, as the first scenario of a cold process does.
+func assignOrder(sc *Scenario) {
+	if sc.Cold || sc.Giant {
+		return
+	}
+	switch sc.Sched.Policy {
+	case "single", "pct":
+		return
+	}
+	r := zsimrt.NewRand(sc.Seed ^ 0x73696d5f66697273)
+	sc.SimFirst = r.Intn(3) == 0
+}
